@@ -714,7 +714,13 @@ func equivalentCheckConfigInV2(
 	if err != nil {
 		return nil, err
 	}
-	deprecations, err := bufcheck.GetDeprecatedIDToReplacementIDs(expectedRules)
+	// Deprecated IDs may also be referenced by except and ignore_only, that is by rules
+	// that are not among the configured rules, so consider all rules of the source version.
+	allRules, err := client.AllRules(ctx, ruleType, checkConfig.FileVersion())
+	if err != nil {
+		return nil, err
+	}
+	deprecations, err := bufcheck.GetDeprecatedIDToReplacementIDs(allRules)
 	if err != nil {
 		return nil, err
 	}
